@@ -116,7 +116,7 @@ def run(ctx):
     init = tfr.own_method("__init__")
     if init is None:
         raise AnalysisError("anchor vanished: ThreadsafeForwardingResult.__init__")
-    ENTRY = [("startTestRun", {}, "startTestRun"), ("stopTestRun", {}, "stopTestRun"), ("stop", {}, "stop"), ("done", {}, "done"), ("_get_shouldStop", {}, "shouldStop:read")]
+    ENTRY = [("startTestRun", {}, "startTestRun"), ("stopTestRun", {}, "stopTestRun"), ("stop", {}, "stop"), ("done", {}, "done"), ("shouldStop", {}, "shouldStop:read")]
     for m in tm.OUTCOMES:
         f_ = methods.get(m)
         if f_ is None:
